@@ -139,6 +139,103 @@ pub fn body_candidates(plan: &Plan) -> Vec<Plan> {
                 }
             }
         }
+        Body::Drop(c) => {
+            use crate::fam_drop::*;
+            let mut push = |f: &dyn Fn(&mut DropPlan)| {
+                let mut p = plan.clone();
+                if let Body::Drop(ref mut cc) = p.body {
+                    f(cc);
+                }
+                out.push(p);
+            };
+            if c.detached {
+                push(&|cc| cc.detached = false);
+            }
+            if c.consume != Some(0) {
+                push(&|cc| cc.consume = Some(0));
+            }
+            if c.input_len > 0 {
+                let l = c.input_len;
+                push(&move |cc| cc.input_len = l / 2);
+                push(&|cc| cc.input_len = 0);
+            }
+            for i in 0..3 {
+                if c.pipes[i] {
+                    push(&move |cc| cc.pipes[i] = false);
+                }
+            }
+        }
+        Body::Pipe(c) => {
+            use crate::fam_pipe::*;
+            let mut push = |f: &dyn Fn(&mut PipePlan)| {
+                let mut p = plan.clone();
+                if let Body::Pipe(ref mut cc) = p.body {
+                    f(cc);
+                }
+                out.push(p);
+            };
+            if c.stages.len() > 2 {
+                for i in 0..c.stages.len() {
+                    if c.missing_stage.map(|m| m != i).unwrap_or(true) {
+                        push(&move |cc| {
+                            cc.stages.remove(i);
+                            if let Some(m) = cc.missing_stage {
+                                if m > i {
+                                    cc.missing_stage = Some(m - 1);
+                                }
+                            }
+                        });
+                    }
+                }
+            }
+            if c.shape != Shape::Chain {
+                push(&|cc| cc.shape = Shape::Chain);
+            }
+            if c.stderr_file {
+                push(&|cc| cc.stderr_file = false);
+            }
+            for l in [0usize, 1, c.input_len / 2] {
+                if l < c.input_len {
+                    push(&move |cc| cc.input_len = l);
+                }
+            }
+            for l in [0usize, 1, c.source_len / 2] {
+                if l < c.source_len {
+                    push(&move |cc| cc.source_len = l);
+                }
+            }
+            for i in 0..c.stages.len() {
+                if c.stages[i].detached {
+                    push(&move |cc| cc.stages[i].detached = false);
+                }
+            }
+        }
+        Body::Builder(c) => {
+            use crate::fam_builder::*;
+            let mut push = |f: &dyn Fn(&mut BuilderPlan)| {
+                let mut p = plan.clone();
+                if let Body::Builder(ref mut cc) = p.body {
+                    f(cc);
+                }
+                out.push(p);
+            };
+            for i in 0..c.calls.len() {
+                push(&move |cc| {
+                    cc.calls.remove(i);
+                });
+            }
+            for i in 0..c.clone_calls.len() {
+                push(&move |cc| {
+                    cc.clone_calls.remove(i);
+                });
+            }
+            if c.shell.is_some() {
+                push(&|cc| cc.shell = None);
+            }
+            if c.term != BTerm::Popen {
+                push(&|cc| cc.term = BTerm::Popen);
+            }
+        }
     }
     out
 }
